@@ -29,7 +29,7 @@ class ModelSim final : public Engine {
   std::string GenDef(Ctx& c, CstType type) {
     auto& r = c.gen; const auto env = EnvOf(*m);
     exprgen::Gen g(r, env, static_cast<int>(c.C("expr_depth", 2)));
-    g.siblingReuse = r.Pct(static_cast<int>(c.C("p_reuse_locals", 5))); g.nearMiss = static_cast<int>(c.C("p_near_miss", 0));   // sibling scopes binding one name (legal; nested reuse would be rejected)
+    g.siblingReuse = r.Pct(static_cast<int>(c.C("p_reuse_locals", 5))); g.nearMiss = static_cast<int>(c.C("p_near_miss", 0)); g.scopeEscape = static_cast<int>(c.C("p_scope_escape", 0));   // sibling scopes binding one name (legal; nested reuse would be rejected)
     std::string def;
     switch (type) {
     case CstType::base: case CstType::constant: def = ""; break;
@@ -57,6 +57,7 @@ class ModelSim final : public Engine {
         return def;
       }
     }
+    if ((type == CstType::axiom || type == CstType::theorem) && r.Pct(static_cast<int>(c.C("p_scope_escape", 0)) / 2)) return exprgen::ScopeEscapeTemplate(r, env);
     if (r.Pct(static_cast<int>(c.C("p_reuse_locals", 5)))) def = exprgen::ReuseLocalNames(def);   // sibling scopes binding one name (legal; nested reuse is rejected by the checker)
     if (r.Pct(static_cast<int>(c.C("p_mutant", 8)))) def = exprgen::Mutate(r, def, env);
     return def;
@@ -120,8 +121,8 @@ public:
     c["observe"] = r.Pct(65) ? 1 : r.Range(2, 4);
     c["w_schema"] = r.Range(2, 6); c["w_data"] = r.Range(2, 8); c["w_calc"] = r.Range(2, 8); c["w_persist"] = r.Range(0, 3); c["w_eval"] = r.Range(0, 3);
     c["p_nested_lazy"] = r.Range(0, 12); c["p_reuse_locals"] = f == "C02" ? r.Range(20, 60) : r.Range(0, 10);
-    c["p_near_miss"] = r.Pct(60) ? 0 : r.Range(3, 12);
-    if (f == "C02") { c["p_near_miss"] = r.Pct(35) ? 0 : r.Range(5, 30); c["w_calc"] = r.Range(5, 10); c["w_eval"] = r.Range(3, 8); c["p_mutant"] = r.Range(0, 30); c["p_nested_lazy"] = r.Range(10, 35); }
+    c["p_near_miss"] = r.Pct(60) ? 0 : r.Range(3, 12); c["p_scope_escape"] = r.Pct(70) ? 0 : r.Range(5, 25);
+    if (f == "C02") { c["p_near_miss"] = r.Pct(35) ? 0 : r.Range(5, 30); c["p_scope_escape"] = r.Pct(50) ? 0 : r.Range(5, 30); c["w_calc"] = r.Range(5, 10); c["w_eval"] = r.Range(3, 8); c["p_mutant"] = r.Range(0, 30); c["p_nested_lazy"] = r.Range(10, 35); }
     if (f == "C16" || f == "C10") { c["w_persist"] = r.Range(3, 8); c["w_data"] = r.Range(4, 10); }
     if (f == "C04") { c["w_persist"] = r.Range(4, 9); c["p_mutant"] = r.Range(10, 40); }
     return c;
